@@ -109,7 +109,7 @@ def record(c, st, m, lanes, stim, reuse, strip, use_cb, rnd, cycles=(), wide=Non
         b = run_logic(c, m, n, full, reuse, strip, noop, use_cb, pad_rnd=rnd)
         rec['resp'] = codes(a, 1, sel)
         rec['respB'] = codes(b, 1, sel)
-        if m == 2:
+        if m in (2, 4):
             for k in cycles:
                 s = run_logic(c, m, n, full, reuse, strip, noop, use_cb, cycles=k)
                 rec['cyc'].append(dict(k=k, s0=codes(s, 0, sel)))
